@@ -44,12 +44,12 @@ Proof.
   rewrite (Z.eqb_sym (d_signer d) sg). destruct (sg =? d_signer d); cbn [obind orb]; [reflexivity|apply IH].
 Qed.
 
-Lemma mem_addr_filter_bad (a : Z) l :
-  a <> BAD_ADDR -> mem_addr a (filter (fun x => negb (x =? BAD_ADDR)) l) = mem_addr a l.
+Lemma mem_addr_filter_bad (a : Z) (l : list Z) :
+  a <> BAD_ADDR /\ a <> EMPTY_ADDR -> mem_addr a (filter (A:=Z) addr_parses l) = mem_addr a l.
 Proof.
-  intros N. unfold mem_addr. induction l as [|x r IH]; [reflexivity|]. cbn [filter existsb].
-  destruct (x =? BAD_ADDR) eqn:E; cbn [negb existsb]; rewrite IH; [|reflexivity].
-  destruct (a =? x) eqn:E2; [lia|reflexivity].
+  intros [N N']. unfold mem_addr. induction l as [|x r IH]; [reflexivity|]. cbn [filter existsb].
+  destruct (addr_parses x) eqn:E; cbn [existsb]; rewrite IH; [reflexivity|].
+  unfold addr_parses in E. destruct (a =? x) eqn:E2; [lia|reflexivity].
 Qed.
 
 (* ------------------------------------------------------------------------------------------ *)
@@ -75,7 +75,7 @@ Lemma RemoveWl_world n b s a :
   ent_RemoveAddressFromWhitelist (mk_eworld n b s) a = Ok (mk_eworld n b (with_wl s (remove_z a (e_wl s))), tt).
 Proof. reflexivity. Qed.
 Lemma Signers_world n b s :
-  ent_GetParamEntSignersAsAddressArray (mk_eworld n b s) = filter (fun a => negb (a =? BAD_ADDR)) (ep_signers (e_params s)).
+  ent_GetParamEntSignersAsAddressArray (mk_eworld n b s) = filter addr_parses (ep_signers (e_params s)).
 Proof. reflexivity. Qed.
 Lemma SetParams_world n b s p :
   ent_SetParams (mk_eworld n b s) p =
@@ -121,8 +121,9 @@ Ltac mprim :=
   | |- context [ent_GetParamDenom (mk_eworld ?n ?b ?s)] => rewrite (GetParamDenom_world n b s)
   | |- context [ent_SetParams (mk_eworld ?n ?b ?s) ?p] => rewrite (SetParams_world n b s p)
   | |- context [go_IsAuthorisedToDecide ?w ?sg] => rewrite (gen_ent_IsAuthorisedToDecide_eq w sg)
-  | H : ?a <> BAD_ADDR |- context [mem_addr ?a (filter (fun x => negb (x =? BAD_ADDR)) ?l)] =>
+  | H : ?a <> BAD_ADDR /\ ?a <> EMPTY_ADDR |- context [mem_addr ?a (filter addr_parses ?l)] =>
       rewrite (mem_addr_filter_bad a l H)
+  | H : ?a <> BAD_ADDR /\ ?a <> EMPTY_ADDR |- context [addr_parses ?a] => rewrite (addr_parses_true a H)
   | H : 0 <= ?z < two64 |- context [wrap64 ?z] => rewrite (wrap64_small z H)
   | |- context [u64_add ?a ?b] => rewrite (u64_add_small a b) by lia
   end.
@@ -157,11 +158,11 @@ Ltac mdone := first [ reflexivity | exfalso; prop_tests; first [ lia | congruenc
 Definition ent_msg_ok (w : eworld) (m : ent_msg) : Prop :=
   match m with
   | ERaise p _ _ =>
-      p <> BAD_ADDR /\ 0 <= ew_now w / NSEC < two64 /\ 0 <= e_next (ew_ent w) < two64 - 1
+      (p <> BAD_ADDR /\ p <> EMPTY_ADDR) /\ 0 <= ew_now w / NSEC < two64 /\ 0 <= e_next (ew_ent w) < two64 - 1
   | EDecide sg poid _ =>
-      sg <> BAD_ADDR /\ 0 <= ew_now w / NSEC < two64 /\
+      (sg <> BAD_ADDR /\ sg <> EMPTY_ADDR) /\ 0 <= ew_now w / NSEC < two64 /\
       (forall o, aget poid (e_pos (ew_ent w)) = Some o -> po_id o = poid)
-  | EWhitelist sg t _ => sg <> BAD_ADDR /\ t <> BAD_ADDR
+  | EWhitelist sg t _ => (sg <> BAD_ADDR /\ sg <> EMPTY_ADDR) /\ (t <> BAD_ADDR /\ t <> EMPTY_ADDR)
   end.
 
 Lemma gen_ent_UndPurchaseOrder_eq : forall w p d amt,
@@ -218,9 +219,9 @@ Qed.
 (* the same with one set of hypotheses for all messages *)
 Definition ent_msg_addrs_ok (m : ent_msg) : Prop :=
   match m with
-  | ERaise p _ _ => p <> BAD_ADDR
-  | EDecide sg _ _ => sg <> BAD_ADDR
-  | EWhitelist sg t _ => sg <> BAD_ADDR /\ t <> BAD_ADDR
+  | ERaise p _ _ => p <> BAD_ADDR /\ p <> EMPTY_ADDR
+  | EDecide sg _ _ => sg <> BAD_ADDR /\ sg <> EMPTY_ADDR
+  | EWhitelist sg t _ => (sg <> BAD_ADDR /\ sg <> EMPTY_ADDR) /\ (t <> BAD_ADDR /\ t <> EMPTY_ADDR)
   end.
 
 Corollary gen_ent_msg_exec_eq_uniform : forall w m,
@@ -242,7 +243,7 @@ Proof.
   intros w m I (Hs & Hm) Hx. pose proof (inv_s _ I) as Is. pose proof (inv_now _ I) as Hn.
   assert (Ed : ew_now (eworld_of_ent w) / NSEC = w_now w) by (cbn [eworld_of_ent ew_now]; apply Z.div_mul; discriminate).
   rewrite <- Ed. change (w_ent w) with (ew_ent (eworld_of_ent w)). apply gen_ent_msg_exec_eq_uniform.
-  - destruct m; cbn [ent_msg_addrs_ok ent_signer] in *; unfold BAD_ADDR; lia.
+  - destruct m; cbn [ent_msg_addrs_ok ent_signer] in *; unfold BAD_ADDR, EMPTY_ADDR; lia.
   - rewrite Ed. unfold two63, two64 in *. lia.
   - cbn [eworld_of_ent ew_ent]. pose proof (si_next _ _ Is). lia.
   - exact (sinv_pos_keyed _ _ Is).
@@ -271,6 +272,7 @@ Theorem gen_ent_validate_basic_eq : forall m,
   ent_msg_addrs_ok m -> ent_go_validate_basic m = ent_validate_basic m.
 Proof.
   intros [p d amt|sg poid dec|sg t act] H; cbn [ent_msg_addrs_ok] in H;
+    try match type of H with (_ /\ _) /\ _ => destruct H as [H H'] end;
     unfold ent_go_validate_basic, ent_validate_basic, go_MsgUndPurchaseOrder_ValidateBasic,
       go_MsgProcessUndPurchaseOrder_ValidateBasic, go_MsgWhitelistAddress_ValidateBasic,
       go_ValidPurchaseOrderAcceptRejectStatus, go_ValidWhitelistAction, Coin_IsValid, Coin_IsZero, Coin_IsNegative;
